@@ -317,6 +317,8 @@ type c01Side struct {
 	wireText string
 	// obfs4: clamped private key ‖ node id (the model treats X25519 as a parameter)
 	modelIdent []byte
+	// dtls: the pre-shared key this side hands to the DTLS handshake
+	psk []byte
 }
 
 func (s c01Side) String() string {
@@ -454,9 +456,12 @@ func c01Client(w *c01World, c *c01Case) (s c01Side) {
 		if err := ct.SetParams(c01ClientParams(c)); err != nil {
 			return noClient()
 		}
-		if d, ok := ct.(*dtls.ClientTransport); ok {
-			dtls.VerifC01PrepareParams(d)
-		} else if err := ct.Prepare(context.Background(), nil); err != nil {
+		// the real Prepare of every transport; the DTLS one does a STUN exchange, which is answered in-process
+		var dialer func(ctx context.Context, network, laddr, raddr string) (net.Conn, error)
+		if _, ok := ct.(*dtls.ClientTransport); ok {
+			dialer = dtls.VerifC01StunDialer()
+		}
+		if err := ct.Prepare(context.Background(), dialer); err != nil {
 			return noClient()
 		}
 		m, err := ct.GetParams()
@@ -587,7 +592,14 @@ func c01Client(w *c01World, c *c01Case) (s c01Side) {
 		s.ident = append(append([]byte{}, k.PublicKey.Bytes()[:]...), k.NodeID.Bytes()[:]...)
 		s.modelIdent = append(append([]byte{}, k.PrivateKey.Bytes()[:]...), k.NodeID.Bytes()[:]...)
 	case "dtls":
+		// no tag on the wire: the session is identified by the DTLS handshake, keyed by what PrepareKeys keeps
+		wt := ct.(*dtls.ClientTransport)
+		if err := wt.PrepareKeys(w.pubkey, c.secret, reader); err != nil {
+			s.kind, s.err = "errIdent", err.Error()
+			return s
+		}
 		s.ident = nil
+		s.psk = append([]byte{}, dtls.VerifC01ClientPSK(wt)...)
 	}
 	s.kind = "ok"
 	return s
@@ -635,6 +647,8 @@ func c01Station(w *c01World, c *c01Case, wire proto.Message) (s c01Side, modelId
 		return c01Side{kind: "errOther", err: msg}, nil
 	}
 	s = c01Side{kind: "ok", seed: reg.Keys.ConjureSeed, addr: reg.PhantomIp, port: reg.PhantomPort}
+	// what (dtls.Transport).Connect hands to the handshake: dtls.Config{PSK: reg.SharedSecret()}
+	s.psk = append([]byte{}, reg.SharedSecret()...)
 	tr := w.rm.registeredDecoys.transports[tt]
 	id := []byte(tr.GetIdentifier(reg))
 	s.ident = id
@@ -755,11 +769,62 @@ func c01Run(t testing.TB, out *vlib.Out, w *c01World, c c01Case) {
 	case c.transport != "dtls" && !bytes.Equal(st.ident, cl.ident):
 		c01Fail(out, "C01:ident-differs", fmt.Sprintf("station identifier %x, client tag %x", st.ident, cl.ident), c.replay())
 	}
+	// the rendezvous must also be the one every client already in the field derives
+	if st.kind == "ok" {
+		c01CheckSpec(out, &c, cl.wireText, st)
+	}
+	// DTLS credentials: both ends must key the handshake with the same bytes, and those bytes must give
+	// both ends the same ClientHello random and certificates
+	if c.transport == "dtls" && st.kind == "ok" {
+		c01DtlsCred(out, &c, cl, st)
+	}
 	// determinism: the same registration again gives the same registration
 	out.Checked()
 	if st2, _ := c01Station(w, &c, cl.wire); st2.String() != st.String() {
 		c01Fail(out, "C01:station-not-deterministic", fmt.Sprintf("%s then %s", st, st2), c.replay())
 	}
+}
+
+// c01DtlsCred: the pre-shared keys of both ends against each other, against the model (`dtlscred|…`:
+// the key is the shared secret, the ClientHello random its HKDF) and, on a sample, the certificates.
+func c01DtlsCred(out *vlib.Out, c *c01Case, cl, st c01Side) {
+	hello := func(psk []byte) string {
+		hr, err := cjdtls.VerifC01HelloRandom(psk)
+		if err != nil {
+			return "err"
+		}
+		return vlib.Hex(hr)
+	}
+	out.Case(fmt.Sprintf("dtlscred|client|%s|%d", vlib.Hex(c.secret), c.ver), vlib.Hex(cl.psk)+" "+hello(cl.psk), true)
+	out.Case(fmt.Sprintf("dtlscred|station|%s|%d", vlib.Hex(c.secret), c.ver), vlib.Hex(st.psk)+" "+hello(st.psk), true)
+	out.Checked()
+	switch {
+	case !bytes.Equal(cl.psk, st.psk):
+		c01Fail(out, "C01:dtls-psk-differs", fmt.Sprintf("the client keys the DTLS handshake with %x, the station with %x", cl.psk, st.psk), c.replay())
+	case hello(cl.psk) != hello(st.psk):
+		c01Fail(out, "C01:dtls-credentials-differ", "the two ends derive different ClientHello randoms", c.replay())
+	case len(c.secret) > 0 && c.secret[0]%8 == 0:
+		a, err1 := cjdtls.VerifC01CertInfo(cl.psk)
+		b, err2 := cjdtls.VerifC01CertInfo(st.psk)
+		if err1 != nil || err2 != nil || a != b {
+			c01Fail(out, "C01:dtls-credentials-differ", fmt.Sprintf("certificates derived by the client %s (%v), by the station %s (%v)", a, err1, b, err2), c.replay())
+		}
+	}
+}
+
+// c01CertGolden: certsFromSeed for three fixed keys, as every released client derives them (public key
+// X, Y, common name and serial number of the client and of the server certificate).  Client and station
+// share this function, so only a pinned value can see it move.
+var c01CertGolden = []struct{ seed, want string }{
+	{"0000000000000000000000000000000000000000000000000000000000000000",
+		"[6e8a7bbf964efd55dd8dd2ed00b30e58568e947f24fd9bfc37495139c92f52bb a8098b6d6d3d4dd85a7cdc6c4903e6836a36da19d09b1a1a8d016eaf72a1288d cn=c96e6dc4f4037deb serial=425583131578452403008953331005422757663]" +
+			"[9f11adeaef4fe4ee2f0932283e52bfc2c57caf9bb7ec2ab805de12fdc82570d0 ac2aa2de00fdb0555da26f22f4ff204e4fd6ebc014159a2e1b14e4e98f961bea cn=586c0fb79df443c8 serial=146885224703077245528252848792851389812]"},
+	{"5a5a5a5a5a5a5a5a5a5a5a5a5a5a5a5a5a5a5a5a5a5a5a5a5a5a5a5a5a5a5a5a",
+		"[4e1ca5e06d4eb9341a6c538221ae298a180c4faeb2dbc08975cce104e96f74e8 bb05c399efe20d89bd5f17f616b7b6ccdbaa8e90a3eb9f6b09f512771e7d0ff8 cn=ad301587318eedfc serial=139289663158415748246895554610961876866]" +
+			"[20eda72b28f5ff525e75b068b8c23885a8395b1d557e6d22d8b6c836241854d6 86a0ca877d0647c071400e08fff3a14c19422ea5fa622fd6d15723ab9fc86203 cn=04de6adcf6f9d392 serial=461955735106497046713099472569556016322]"},
+	{"636f6e6a7572652043303120676f6c64656e20766563746f722073656564202333",
+		"[a3ebae8f6375bafc6e2b44f4886a522d845b1283d56dffbc11e40a73c4a6b2d1 60d8ab1ead1c1b67693fccf64c4fdd60b9206d9815b256682b9aa81b3c34b2d0 cn=acf7c6813b87e186 serial=729949576671344888850486817908685379708]" +
+			"[27b8a35fafdeffad26a595fb34f642c89a6b0d881573b727a68e768371638988 99926195236d27aa35a8900c61f0dbbae696fcea3c96cd1590eae61ca8889d9e cn=2c0a7bffd3f15ae8 serial=1240862342366935332298174490208515139681]"},
 }
 
 // ------------------------------------------------------------------------------------------------
@@ -790,7 +855,6 @@ func c01RandNet(r *vlib.Rand) string {
 		if r.Chance(1, 4) {
 			b[0], b[1] = 0, 0
 		}
-		b[10] &= 0xfe // stay clear of ::ffff:0:0/96
 		return fmt.Sprintf("%s/%d", net.IP(b).String(), r.Intn(129))
 	}
 }
@@ -983,6 +1047,15 @@ func c01Crypto(t *testing.T, out *vlib.Out, r *vlib.Rand) {
 		}
 		out.Case(fmt.Sprintf("hkdf|%s|%s|%s|%d", vlib.Hex(secret), vlib.Hex(salt), vlib.Hex(info), k), vlib.Hex(buf), true)
 	}
+	for _, g := range c01CertGolden {
+		seed, _ := hex.DecodeString(g.seed)
+		got, err := cjdtls.VerifC01CertInfo(seed)
+		out.Checked()
+		if err != nil || got != g.want {
+			c01Fail(out, "C01:dtls-certificates-not-published-derivation",
+				fmt.Sprintf("certsFromSeed(%s) gives %s (%v); every released client derives %s", g.seed, got, err, g.want), "C01DTLS|"+g.seed)
+		}
+	}
 	for i := 0; i < vlib.Budget(40, 400); i++ {
 		seed := r.Bytes(32)
 		hr, err := cjdtls.VerifC01HelloRandom(seed)
@@ -990,6 +1063,12 @@ func c01Crypto(t *testing.T, out *vlib.Out, r *vlib.Rand) {
 			t.Fatal(err)
 		}
 		out.Case("dtlshello|"+vlib.Hex(seed), vlib.Hex(hr), true)
+		want := make([]byte, 28)
+		io.ReadFull(hkdf.New(sha256.New, seed, []byte("clientHelloRandomFromSeed"), nil), want)
+		out.Checked()
+		if !bytes.Equal(hr, want) {
+			c01Fail(out, "C01:dtls-hello-random-not-published-derivation", fmt.Sprintf("ClientHello random %x, every released client derives %x", hr, want), "C01DTLS|"+vlib.Hex(seed))
+		}
 		a, err1 := cjdtls.VerifC01CertInfo(seed)
 		b, err2 := cjdtls.VerifC01CertInfo(seed)
 		out.Checked()
@@ -1034,7 +1113,16 @@ func c01Replay(t *testing.T, out *vlib.Out, w *c01World, path string) {
 			seed, _ := hex.DecodeString(f[1])
 			a, _ := cjdtls.VerifC01CertInfo(seed)
 			b, _ := cjdtls.VerifC01CertInfo(seed)
-			fmt.Println("REPLAY dtls:", a == b)
+			fmt.Println("REPLAY dtls:", a == b, a)
+			out.Checked()
+			if a != b {
+				c01Fail(out, "C01:dtls-credentials-not-deterministic", "two derivations from one secret differ", line)
+			}
+			for _, g := range c01CertGolden {
+				if g.seed == f[1] && a != g.want {
+					c01Fail(out, "C01:dtls-certificates-not-published-derivation", fmt.Sprintf("certsFromSeed(%s) gives %s; every released client derives %s", g.seed, a, g.want), line)
+				}
+			}
 		}
 	}
 }
